@@ -501,6 +501,15 @@ pub assume_specification<K, V, S, A: std::alloc::Allocator>[ HashMap::<K, V, S, 
     ensures r >= m@.len();
 pub assume_specification<T, A: std::alloc::Allocator>[ Vec::<T, A>::capacity ](v: &Vec<T, A>) -> (r: usize)
     ensures r >= v@.len();
+// conversions through the generic `From` trait that Verus accepts WITHOUT any postcondition (unlike the integer
+// widenings, which vstd specifies): stated here so that a rewrite using them stays provable
+pub assume_specification[<char as From<u8>>::from](x: u8) -> (c: char) ensures c as u32 == x as u32;
+pub assume_specification[<u32 as From<char>>::from](c: char) -> (x: u32) ensures x == c as u32;
+pub assume_specification[<u8 as From<bool>>::from](b: bool) -> (x: u8) ensures x == (if b { 1u8 } else { 0u8 });
+pub assume_specification[<u32 as From<bool>>::from](b: bool) -> (x: u32) ensures x == (if b { 1u32 } else { 0u32 });
+pub assume_specification[<usize as From<bool>>::from](b: bool) -> (x: usize) ensures x == (if b { 1usize } else { 0usize });
+pub assume_specification[<u64 as From<bool>>::from](b: bool) -> (x: u64) ensures x == (if b { 1u64 } else { 0u64 });
+pub assume_specification[<i32 as From<bool>>::from](b: bool) -> (x: i32) ensures x == (if b { 1i32 } else { 0i32 });
 pub assume_specification[ u32::abs_diff ](x: u32, y: u32) -> (r: u32)
     ensures r as int == if x >= y { x - y } else { y - x };
 
